@@ -821,8 +821,12 @@ class Manager:
 
     @m.output()
     def use_hints(self, hint_message):
+        hints = hint_message.get("hints", [])
+        if not isinstance(hints, list):
+            log.msg(f"invalid connection-hints message: {hint_message!r}")
+            hints = []
         hint_objs = filter(lambda h: h,  # ignore None, unrecognizable
-                           [parse_hint(hs) for hs in hint_message["hints"]])
+                           [parse_hint(hs) for hs in hints])
         hint_objs = list(hint_objs)
         self._connector.got_hints(hint_objs)
 
